@@ -36,6 +36,9 @@ TYPES = {
     'numbool': (dict(type='number'), 1.0, '1.0', True),
     'boolone': (dict(type='boolean'), True, 'true', 1),
     'intbool': (dict(type='integer'), 1, '1', True),
+    # two fields of one type and format whose CONSTRAINTS differ: the text '4' is valid for the first and invalid for the second
+    'int_lax': (dict(type='integer'), 3, '4', 'x'),
+    'int_min5': (dict(type='integer', constraints=dict(minimum=5)), 7, '8', '4'),
     # required: the invalid value of this setting is NULL itself (cases with a valid-null cell in such a column are not instantiated)
     'intreq': (dict(type='integer', constraints=dict(required=True)), 5, '7', None),
 }
@@ -76,8 +79,15 @@ def replay_case(item):
         t2 = t1
     tn = [t1, t2]
     rows = []
+    # the resource's schema may declare missing values of its own (update_schema / load(override_schema=)): a cell holding one of them
+    # is a NULL for every cast, whoever does it
+    mv = item.get('mv')
     for i, r in enumerate(c['tbl']):
         rows.append(dict(rid=i, f1=cell_value(r[0], t1), f2=cell_value(r[1], t2), f1x='keep-%d' % i))
+        if mv:
+            for fn, cls in zip(('f1', 'f2'), r):
+                if cls == 'nul' and i % 2 == 0:
+                    rows[-1][fn] = 'n/a'
     calls = []
     pol = c['policy']
 
@@ -117,7 +127,7 @@ def replay_case(item):
             try:
                 if ch == 'set_type':
                     opts = dict(TYPES[t1][0])
-                    ds = Flow(tuple_source([('t', anyf, rows)]), DF.set_type(pattern, on_error=handler, **opts)).datastream()
+                    ds = Flow(tuple_source([('t', anyf, rows, None, ({'missingValues': ['', 'n/a']} if mv else None))]), DF.set_type(pattern, on_error=handler, **opts)).datastream()
                     out = [[dict(r) for r in res] for res in ds.res_iter][0]
                 elif ch == 'set_type_transform':
                     # lexical values arrive wrapped in '<...>' and only the transform makes them castable: it must run BEFORE the cast,
@@ -137,7 +147,7 @@ def replay_case(item):
                     ds = Flow(tuple_source([('t', anyf, wrapped)]), DF.set_type(pattern, on_error=handler, transform=tf, **opts)).datastream()
                     out = [[dict(r) for r in res] for res in ds.res_iter][0]
                 elif ch == 'validate':
-                    ds = Flow(tuple_source([('t', typed, rows)]), DF.validate(on_error=handler)).datastream()
+                    ds = Flow(tuple_source([('t', typed, rows, None, ({'missingValues': ['', 'n/a']} if mv else None))]), DF.validate(on_error=handler)).datastream()
                     out = [[dict(r) for r in res] for res in ds.res_iter][0]
                 elif ch == 'results':
                     out = Flow(tuple_source([('t', typed, rows)])).results(on_error=handler)[0][0]
@@ -210,7 +220,10 @@ def run():
             same = ch in ('set_type', 'set_type_transform')            # both checked fields get the first type there
             t1 = r.choice([x for x in tn2 if x != 'intreq' or not (nul1 or (same and nul2))])
             t2 = r.choice([x for x in tn2 if x != 'intreq' or not nul2])
-            items.append(dict(case=c, channel=ch, t1=t1, t2=t2, pattern=r.choice(['f[12]', 'f1|f2', 'f2|f1', 'f(1|2)'])))
+            items.append(dict(case=c, channel=ch, t1=t1, t2=t2, pattern=r.choice(['f[12]', 'f1|f2', 'f2|f1', 'f(1|2)']),
+                              mv=(ch in ('set_type', 'validate') and 'intreq' not in (t1, t2) and r.random() < 0.3)))
+            if ch == 'validate' and r.random() < 0.15:
+                items.append(dict(case=c, channel=ch, t1='int_lax', t2='int_min5', pattern='f[12]', mv=False))
     res = pmap(replay_case, items, chunksize=32)
     errs = harness_errors(res)
     if errs:
